@@ -424,3 +424,87 @@ func ruleSENStringWriter(prog *Program, rep *Report) {
 		}
 	}
 }
+
+// ruleSENFollow (C03, SEN): what may follow a bare token must not depend on
+// whether the token was read by the fast path (scan, then the following byte
+// is dispatched in the mode the token leaves) or byte by byte in token mode
+// (the following byte is dispatched in the token table): otherwise acceptance
+// depends on how a reader chunks the input.
+func ruleSENFollow(prog *Program, rep *Report) {
+	rep.Rules = append(rep.Rules,
+		"G-sen-follow: for every byte b that does not continue a bare token: the SEN token table rejects b (error code) exactly when both modes a completed token can leave (value mode, colon mode) reject b; found from the sen.Parser tables (roles identified from the dispatch loop)",
+		"G-sen-space: in every SEN mode table that may end a token or number (257-byte tables whose end marker is 't' or 'n') the whitespace bytes of value mode are not the error code")
+	rt, err := senReaderTables(prog)
+	if err != nil {
+		rep.Errorf("%v", err)
+		return
+	}
+	m, err := ExtractMachine(prog, "sen", "Parser", []string{"Parse"})
+	if err != nil {
+		rep.Errorf("%v", err)
+		return
+	}
+	errCode := at(rt.value, 0)
+	// colon mode: the table assigned in the clause that pushes a key (mode after a key token) - found as the table whose ':' cell leads back to value mode
+	colon := ""
+	for tbl := range m.tables {
+		if len(tbl) == 256 && at(tbl, ':') != errCode && at(tbl, 'a') == errCode && at(tbl, '"') == errCode && at(tbl, '0') == errCode {
+			if colon == "" || tbl < colon {
+				colon = tbl
+			}
+		}
+	}
+	if colon == "" {
+		rep.Errorf("sen: colon mode table not found")
+		return
+	}
+	// bytes the fast-path clause handles itself (compared with the byte that stopped the scan)
+	special := map[int]bool{}
+	if cc := m.clauseFor(rt.tokenStart); cc != nil {
+		ast.Inspect(cc, func(n ast.Node) bool {
+			if be, ok := n.(*ast.BinaryExpr); ok && be.Op.String() == "==" {
+				if tv := m.pkg.TypesInfo.Types[be.Y].Value; tv != nil && tv.Kind() == constant.Int {
+					if v, ok := constant.Int64Val(tv); ok && v >= 0 && v < 256 {
+						special[int(v)] = true
+					}
+				}
+			}
+			return true
+		})
+	}
+	for b := 0; b < 256; b++ {
+		if at(rt.token, b) == rt.tokenOk {
+			continue
+		}
+		fast := at(rt.value, b) != errCode || at(colon, b) != errCode || special[b]
+		slow := at(rt.token, b) != errCode
+		key := "sen:token-follow:" + byteName(b)
+		if fast == slow {
+			rep.Discharge("G-sen-follow", key, prog.Pos(rt.pos), "fast path and token mode agree")
+		} else if fast {
+			rep.Violate(Finding{Rule: "G-sen-follow", Key: key, Pos: prog.Pos(rt.pos), Msg: fmt.Sprintf("byte %s directly after a bare token is accepted when the token is read by the fast path but is an error in token mode (token read across two buffers): sen.Parse and sen.ParseReader disagree depending on chunking", byteName(b))})
+		} else {
+			rep.Violate(Finding{Rule: "G-sen-follow", Key: key, Pos: prog.Pos(rt.pos), Msg: fmt.Sprintf("byte %s directly after a bare token is accepted in token mode but rejected after the fast path", byteName(b))})
+		}
+	}
+	var names []string
+	for tbl, name := range m.tables {
+		if len(tbl) == 257 && (tbl[256] == 't' || tbl[256] == 'n') {
+			names = append(names, name)
+			for _, w := range []int{' ', '\t', '\n', '\r'} {
+				if at(rt.value, w) == errCode {
+					continue
+				}
+				key := fmt.Sprintf("sen:%s:space:%s", name, byteName(w))
+				if at(tbl, w) == errCode {
+					rep.Violate(Finding{Rule: "G-sen-space", Key: key, Pos: prog.Pos(rt.pos), Msg: fmt.Sprintf("whitespace byte %s is an error in mode %s, which is only used when a token or number continues across buffers: text that parses from a []byte fails from a reader depending on chunking", byteName(w), name)})
+				} else {
+					rep.Discharge("G-sen-space", key, prog.Pos(rt.pos), "whitespace ends the token/number")
+				}
+			}
+		}
+	}
+	if len(names) < 5 {
+		rep.Errorf("G-sen-space found %d token/number modes (floor 5)", len(names))
+	}
+}
